@@ -41,6 +41,12 @@ type c10World struct {
 	oldRoots [][]byte // previous root keys
 	sealed   bool
 	term     uint32
+	pterm    uint32 // active term in the store (0 = same as term)
+	// faultSeen: some operation reported a storage error.  From then on the live
+	// barrier, the store and the standby may legitimately disagree (the caller was
+	// told the operation failed); the oracles about reloads and the standby assume
+	// successful operations and are suspended, the data / seal / key oracles stay.
+	faultSeen bool
 	model    map[string]string
 	n        int
 	ns       *namespace.Namespace
@@ -107,6 +113,23 @@ var c10Alphabet = []c10Op{
 	{"unseal", "right"}, {"unseal", "wrong"}, {"unseal", "truncated"}, {"unseal", "previous-root"},
 	{"reload-root-key", ""}, {"reload-keyring", ""},
 	{"standby", "check-upgrade"}, {"standby", "reload-root-key"}, {"standby", "reload-keyring"}, {"standby", "follow"},
+	// the same operations with their k-th storage operation failing once; the
+	// process SURVIVES the error (unlike the crash points of part C)
+	{"rotate!", "1"}, {"rotate!", "2"}, {"rotate!", "3"}, {"rotate-root!", "1"}, {"rotate-root!", "2"},
+}
+
+// persisted opens a fresh barrier over the same store with the given root key
+// and reports the active term found there (0 = does not unseal).
+func (w *c10World) persistedTerm(root []byte) uint32 {
+	f := NewAESGCMBarrier(w.phys, w.ns)
+	if err := f.Unseal(c10ctx, append([]byte{}, root...)); err != nil {
+		return 0
+	}
+	kr, _ := c10Raw(f).Keyring()
+	if kr == nil {
+		return 0
+	}
+	return kr.ActiveTerm()
 }
 
 func isSealedErr(err error) bool { return err != nil && errors.Is(err, ErrBarrierSealed) }
@@ -192,6 +215,86 @@ func (w *c10World) step(op c10Op) (string, string) {
 			return "create-upgrade-failed", err.Error()
 		}
 		w.term = nt
+		w.pterm = nt
+	case "rotate!", "rotate-root!":
+		if w.sealed {
+			return "", ""
+		}
+		k := int(op.Arg[0] - '0')
+		ctl := physx.Ctl(w.phys)
+		ctl.FailAt("faulted", k)
+		ctl.SetTag("faulted")
+		var err error
+		var nk []byte
+		var nt uint32
+		if op.Kind == "rotate!" {
+			nt, err = b.Rotate(c10ctx)
+			if err == nil {
+				_ = b.CreateUpgrade(c10ctx, nt) // a missing upgrade record only costs the standby a keyring reload
+			}
+		} else {
+			nk, err = b.GenerateKey()
+			if err != nil {
+				return "harness", err.Error()
+			}
+			err = b.RotateRootKey(c10ctx, nk)
+		}
+		ctl.SetTag("")
+		ctl.FailAt("faulted", 1<<30)
+		// The store is the truth.  After an operation that REPORTED an error the caller
+		// may hold the previous or the new root key; the statement asks that "a currently
+		// valid key" keeps opening everything, so: at least one root key that was ever in
+		// force (or was just proposed) must open the store; that one is "valid" from now on.
+		if err != nil {
+			w.faultSeen = true
+			cands := [][]byte{w.root}
+			if nk != nil {
+				cands = append(cands, nk)
+			}
+			for i := len(w.oldRoots) - 1; i >= 0; i-- {
+				cands = append(cands, w.oldRoots[i])
+			}
+			var valid []byte
+			for _, c := range cands {
+				if w.persistedTerm(c) != 0 {
+					valid = c
+					break
+				}
+			}
+			if valid == nil {
+				return "store-unsealable-after-failed-operation", fmt.Sprintf("after %s with storage op %d failing (%v) no root key that was ever in force opens the store", op.Kind, k, err)
+			}
+			if !bytes.Equal(valid, w.root) {
+				var olds [][]byte
+				for _, o := range append(w.oldRoots, w.root) {
+					if !bytes.Equal(o, valid) {
+						olds = append(olds, o)
+					}
+				}
+				w.oldRoots = olds
+				w.root = append([]byte{}, valid...)
+			}
+		} else if op.Kind == "rotate-root!" {
+			w.oldRoots = append(w.oldRoots, w.root)
+			w.root = nk
+		}
+		pt := w.persistedTerm(w.root)
+		if pt == 0 {
+			return "store-unsealable-after-failed-rotation", fmt.Sprintf("after %s with storage op %d failing (%v) the store does not unseal with the valid root key", op.Kind, k, err)
+		}
+		if err == nil && op.Kind == "rotate!" && pt != nt {
+			return "rotation-not-persisted", fmt.Sprintf("Rotate returned term %d without error, the store holds active term %d", nt, pt)
+		}
+		// After a rotation that REPORTED an error the live barrier and the store may
+		// legitimately disagree about the active term (e.g. keyring written, root-key
+		// record not): "newest term" is then whatever the live barrier uses until the
+		// next unseal / keyring reload, which adopts the store's term.  What must hold
+		// regardless is that nothing written meanwhile is lost (invariant: entry-lost).
+		w.pterm = pt
+		w.term = pt
+		if kr, _ := b.Keyring(); err != nil && kr != nil {
+			w.term = kr.ActiveTerm()
+		}
 	case "rotate-root":
 		if w.sealed {
 			return "", "" // would dereference the nil keyring: the API layer never calls it while sealed
@@ -237,6 +340,9 @@ func (w *c10World) step(op c10Op) (string, string) {
 				return "correct-key-rejected", fmt.Sprintf("unseal with the current root key failed: %v", err)
 			}
 			w.sealed = false
+			if w.pterm != 0 {
+				w.term = w.pterm
+			}
 		} else if err == nil {
 			return "wrong-key-unsealed", fmt.Sprintf("unseal(%s) succeeded", op.Arg)
 		} else if !b.Sealed() {
@@ -247,6 +353,9 @@ func (w *c10World) step(op c10Op) (string, string) {
 			return "", ""
 		}
 		if err := b.ReloadRootKey(c10ctx); err != nil {
+			if w.faultSeen {
+				return w.invariant()
+			}
 			return "reload-root-key-failed", err.Error()
 		}
 	case "reload-keyring":
@@ -254,9 +363,18 @@ func (w *c10World) step(op c10Op) (string, string) {
 			return "", ""
 		}
 		if err := b.ReloadKeyring(c10ctx); err != nil {
+			if w.faultSeen {
+				return w.invariant()
+			}
 			return "reload-keyring-failed", err.Error()
 		}
+		if w.pterm != 0 {
+			w.term = w.pterm
+		}
 	case "standby":
+		if w.faultSeen {
+			return w.invariant()
+		}
 		s := w.standby
 		switch op.Arg {
 		case "check-upgrade":
@@ -361,6 +479,14 @@ func (w *c10World) canon() string {
 		ks = append(ks, k)
 	}
 	sort.Strings(ks)
+	// the term each entry is stored under is part of the state: whether an entry
+	// survives depends on whether ITS term's key is in the persisted keyring
+	snap := physx.Ctl(w.phys).Snapshot()
+	for i, k := range ks {
+		if pe := snap[k]; len(pe) >= 4 {
+			ks[i] = fmt.Sprintf("%s@%d", k, binary.BigEndian.Uint32(pe[:4]))
+		}
+	}
 	st, _ := w.standby.Keyring()
 	sterm := uint32(0)
 	sroot := false
@@ -368,7 +494,7 @@ func (w *c10World) canon() string {
 		sterm = st.ActiveTerm()
 		sroot = bytes.Equal(st.RootKey(), w.root)
 	}
-	return fmt.Sprintf("sealed=%v term=%d roots=%d keys=%v standbyTerm=%d standbyRootCurrent=%v", w.sealed, w.term, len(w.oldRoots), ks, sterm, sroot)
+	return fmt.Sprintf("fault=%v sealed=%v term=%d stored=%d roots=%d keys=%v standbyTerm=%d standbyRootCurrent=%v", w.faultSeen, w.sealed, w.term, w.pterm, len(w.oldRoots), ks, sterm, sroot)
 }
 
 func c10Replay(nsMode, txn bool, hist []c10Op) (w *c10World, sig, msg string) {
